@@ -79,7 +79,7 @@ Definition recomp_run : list act :=
 
 Lemma recompute_never_times_out_refuted :
   exists s, Reach KRecomp true armed s /\ pcs s = Parked /\ delay s = 0 /\ nsp s = 4%nat /\
-            now s = tcall s + 3 * dur s /\ ar s = Some 2000000 /\ tp s = now s.
+            now s = tcall s + 3 * dur s /\ ar s = Some 2000000 /\ tp s = now s /\ dur s = 2000000.
 Proof.
   destruct (run KRecomp true armed init recomp_run) as [s|] eqn:E; [|vm_compute in E; discriminate].
   exists s. split; [eapply run_reach; [constructor | exact E]|].
